@@ -12,7 +12,18 @@
    [covered A t] says: on every path from the root to an occurrence of A, every slot is visited.            *)
 From PV Require Import Base Crit gen.TermsTable Terms gen.C15Table.
 
-Definition vis (k : ctor) (s : slot) : bool := existsb (slot_eqb s) (visited k).
+(* what the traversal needs to know about the code.  Every definition and lemma below is generic in it; the instance
+   [tcfg] is read off the extracted table. *)
+Record cfg := {
+  cvis : ctor -> slot -> bool;      (* does class k's replace_table look into slot s? *)
+  c_with_by_call : bool;            (* _with handled by calling replace_table on the AliasedQuery (else: rebuilt from its query) *)
+  c_join_by_call : bool;            (* Join.item handled by calling replace_table on it (else: compared with ==) *)
+  c_with_ok : bool;                 (* AliasedQuery has a replace_table method *)
+  c_item_ok : bool                  (* Table has a replace_table method *)
+}.
+Definition tcfg : cfg :=
+  {| cvis := fun k s => existsb (slot_eqb s) (visited k); c_with_by_call := with_by_call; c_join_by_call := join_item_by_call;
+     c_with_ok := with_items_replaceable; c_item_ok := table_item_replaceable |}.
 
 (* the table Query.from_(Table(tbl)) of the shared AST's fixed sub-query leaf TSub *)
 Definition plain (s : string) : tref := {| tname := s; tschema := []; talias := None |}.
@@ -21,6 +32,8 @@ Definition cov1 (visited_slot child_covered child_has_A : bool) : bool :=
   if visited_slot then child_covered else negb child_has_A.
 
 Section RT.
+Variable cf : cfg.
+Notation vis := (cvis cf).
 Variables A B : tref.
 
 (* self.table == current_table *)
@@ -176,6 +189,14 @@ with covered_o (o : oterm) {struct o} : bool :=
 
 End RT.
 
+(* the (class, slot) pairs of the shared expression AST *)
+Definition term_pairs : list (ctor * slot) :=
+  [(KField, S_table); (KStar, S_table); (KNeg, S_term); (KArith, S_left); (KArith, S_right); (KBasic, S_left); (KBasic, S_right);
+   (KCplx, S_left); (KCplx, S_right); (KIn, S_term); (KIn, S_container); (KBetween, S_term); (KBetween, S_start);
+   (KBetween, S_end); (KBitAnd, S_term); (KIsNull, S_term); (KNotNull, S_term); (KNot, S_term); (KAll, S_term);
+   (KCase, S__cases_crit); (KCase, S__cases_term); (KCase, S__else); (KFunc, S_args); (KTuple, S_values); (KArray, S_values)].
+Definition term_slots_all_visited (cf : cfg) : bool := forallb (fun p => cvis cf (fst p) (snd p)) term_pairs.
+
 (* number of table references equal to C (TSub leaves are not counted: see sub_foreign) *)
 Section COUNT.
 Variable C : tref.
@@ -250,13 +271,15 @@ Definition mapM {X Y} (f : X -> res Y) : list X -> res (list Y) :=
     end.
 
 Section RTW.
+Variable cf : cfg.
+Notation vis := (cvis cf).
 Variables A B : tref.
 Notation hit := (hit A).
 Notation sw_tbl := (sw_tbl A B).
 Notation subst := (subst A B).
-Notation rep := (rep A B).
+Notation rep := (rep cf A B).
 Notation occ := (occ A).
-Notation covered := (covered A).
+Notation covered := (covered cf A).
 
 Definition ifv {X} (b : bool) (f : X -> X) (x : X) : X := if b then f x else x.
 Definition occs (l : list term) : bool := existsb occ l.
@@ -369,16 +392,19 @@ Definition subst_join (j : qjoin) : qjoin :=
   | JOn h i c => JOn h (subst_src i) (subst_wt c)
   | JUsing h i fs => JUsing h (subst_src i) (map subst fs)
   end.
-(* Join.replace_table CALLS item.replace_table: a sub-query has it, Table / AliasedQuery answer any attribute with a
-   Field (Selectable.__getattr__) and calling that raises TypeError *)
+(* Join.replace_table either CALLS item.replace_table (join_item_by_call: a sub-query has it, Table / AliasedQuery answer any
+   attribute with a Field (Selectable.__getattr__) and calling that raises TypeError) or compares the item like JoinOn does *)
 Definition rep_join (j : qjoin) : res qjoin :=
   match j with
   | JCross i =>
       if vis KJoin S_item then
-        match i with
-        | SrcSub q al => Ok (JCross (SrcSub (rep_q q) al))
-        | _ => if table_item_replaceable then Ok (JCross (cmp_src i)) else Err "TypeError"
-        end
+        if c_join_by_call cf then
+          (* self.item = self.item.replace_table(..): a sub-query has the method, Table / AliasedQuery raise *)
+          match i with
+          | SrcSub q al => Ok (JCross (SrcSub (rep_q q) al))
+          | _ => if c_item_ok cf then Ok (JCross (cmp_src i)) else Err "TypeError"
+          end
+        else Ok (JCross (cmp_src i))      (* self.item = new if self.item == current else self.item *)
       else Ok j
   | JOn h i c => Ok (JOn h (ifv (vis KJoinOn S_item) cmp_src i) (ifv (vis KJoinOn S_criterion) rep_wt c))
   | JUsing h i fs => Ok (JUsing h (ifv (vis KJoinUsing S_item) cmp_src i) (ifv (vis KJoinUsing S_fields) (map rep) fs))
@@ -393,7 +419,8 @@ Definition cov_join (j : qjoin) : bool :=
   match j with
   | JCross i =>
       if vis KJoin S_item then
-        match i with SrcSub q _ => cov_q q | _ => table_item_replaceable end
+        if c_join_by_call cf then match i with SrcSub q _ => cov_q q | _ => c_item_ok cf end
+        else cov_src i
       else negb (occ_src i)
   | JOn _ i c => cov1 (vis KJoinOn S_item) (cov_src i) (occ_src i) && cov1 (vis KJoinOn S_criterion) (cov_wt c) (occ_wt c)
   | JUsing _ i fs => cov1 (vis KJoinUsing S_item) (cov_src i) (occ_src i) && cov1 (vis KJoinUsing S_fields) (covs fs) (occs fs)
@@ -427,10 +454,14 @@ Definition subst_stmt (s : stmt) : stmt :=
 
 Definition rep_withs (s : stmt) : res (list (string * squery)) :=
   if vis (skind s) S__with
-  then match s_with s with
-       | [] => Ok []
-       | w => if with_items_replaceable then Ok (map (fun p => (fst p, rep_q (snd p))) w) else Err "TypeError"
-       end
+  then if c_with_by_call cf
+       then (* alias_query.replace_table(..) on an AliasedQuery, which has no such method *)
+            match s_with s with
+            | [] => Ok []
+            | w => if c_with_ok cf then Ok (map (fun p => (fst p, rep_q (snd p))) w) else Err "TypeError"
+            end
+       else (* AliasedQuery(name, query.replace_table(..)) *)
+            Ok (map (fun p => (fst p, rep_q (snd p))) (s_with s))
   else Ok (s_with s).
 Definition rep_joins (s : stmt) : res (list qjoin) :=
   if vis (skind s) S__joins then mapM rep_join (s_joins s) else Ok (s_joins s).
@@ -450,7 +481,8 @@ Definition rep_stmt_core (s : stmt) (withs : list (string * squery)) (joins : li
      s_havings := ifv (vis k S__havings) rep_ow (s_havings s);
      s_orderbys := ifv (vis k S__orderbys) (map (fun p => (rep_wt (fst p), snd p))) (s_orderbys s);
      s_joins := joins;
-     s_updates := ifv (vis k S__updates) (map (fun p => (rep (fst p), rep_wt (snd p)))) (s_updates s);
+     (* QueryBuilder.set() wraps every value in a ValueWrapper, whose own replace_table decides about the payload *)
+     s_updates := ifv (vis k S__updates) (map (fun p => (rep (fst p), ifv (vis KValue S_value) rep_wt (snd p)))) (s_updates s);
      s_star := ifv (vis k S__select_star_tables) sw_star (s_star s);
      s_limit_by := ifv (vis k S__limit_by) (map rep_wt) (s_limit_by s) |}.
 (* QueryBuilder.replace_table: _with first, _joins later; either may raise *)
@@ -465,7 +497,9 @@ Definition cov_stmt (s : stmt) : bool :=
   cov1 (vis k S__from) (forallb cov_src (s_from s)) (existsb occ_src (s_from s))
   && cov1 (vis k S__insert_table) true (occ_otbl A (s_insert s))
   && cov1 (vis k S__update_table) true (occ_otbl A (s_update s))
-  && (if vis k S__with then match s_with s with [] => true | _ => false end
+  && (if vis k S__with
+      then if c_with_by_call cf then match s_with s with [] => true | _ => false end
+           else forallb (fun p => cov_q (snd p)) (s_with s)
       else negb (existsb (fun p => occ_q (snd p)) (s_with s)))
   && cov1 (vis k S__selects) (cov_ws (s_selects s)) (occ_ws (s_selects s))
   && cov1 (vis k S__columns) (covs (s_columns s)) (occs (s_columns s))
@@ -476,7 +510,8 @@ Definition cov_stmt (s : stmt) : bool :=
   && cov1 (vis k S__havings) (cov_ow (s_havings s)) (occ_ow (s_havings s))
   && cov1 (vis k S__orderbys) (forallb (fun p => cov_wt (fst p)) (s_orderbys s)) (existsb (fun p => occ_wt (fst p)) (s_orderbys s))
   && (if vis k S__joins then forallb cov_join (s_joins s) else negb (existsb occ_join (s_joins s)))
-  && cov1 (vis k S__updates) (forallb (fun p => covered (fst p) && cov_wt (snd p)) (s_updates s))
+  && cov1 (vis k S__updates)
+          (forallb (fun p => covered (fst p) && cov1 (vis KValue S_value) (cov_wt (snd p)) (occ_wt (snd p))) (s_updates s))
           (existsb (fun p => occ (fst p) || occ_wt (snd p)) (s_updates s))
   && cov1 (vis k S__select_star_tables) true (existsb hit (s_star s))
   && cov1 (vis k S__limit_by) (cov_ws (s_limit_by s)) (occ_ws (s_limit_by s)).
